@@ -29,11 +29,11 @@ def ex_sampling(repo):
 
 def obligations():
     return [
-        KModelOb('O15.1-multiply', 'sampling', 'multiply_range', 'multiply(u, ratio) for every u and every ratio in [0,1): result in [1, max(u,1)]', ex_sampling, 'all 32-bit u (model of U256), all f64 ratios in [0,1)', cuts=CUTS, timeout=900, mem_gb=8, min_covers=1),
+        KModelOb('O15.1-multiply', 'sampling', 'multiply_range', 'multiply(u, ratio) for every u and every ratio in [0,1): result in [1, max(u,1)]', ex_sampling, 'u < 2^16 (32-bit model of U256; wider operands do not finish), all f64 ratios in [0,1)', cuts=CUTS, timeout=900, mem_gb=8, min_covers=1),
         KModelOb('O15.3-samples-count', 'sampling', 'samples_count', 'estimate_samples_count: 0 when at most last-N blocks are missing, otherwise within '
                  '[1, blocks - last_n], for every k (also NaN / infinite) and lambda', ex_sampling, 'all u64 / f64 / u32 inputs', cuts=CUTS,
                  timeout=900, mem_gb=8, min_covers=1),
         KModelOb('O15.1-sample-blocks', 'sampling', 'sample_blocks_wellformed', 'sample_blocks (real text incl. FlyClientPDF): boundary in (start TD, last TD]; '
                  'sampled difficulties strictly increasing, unique, inside [start TD, boundary); count within [1, blocks - last_n]', ex_sampling,
-                 'last_n in 1..3, at most last_n+3 missing blocks, arbitrary 32-bit difficulties', cuts=CUTS, timeout=1500, mem_gb=10, min_covers=1, weight=3),
+                 'last_n in 1..3, at most last_n+3 missing blocks, arbitrary 32-bit start difficulty, difficulty range < 2^16', cuts=CUTS, timeout=1500, mem_gb=10, min_covers=1, weight=3),
     ]
